@@ -35,7 +35,7 @@ func C07(c *Ctx) {
 	r.Rule("C07/R8", "every verified board message that is not a signature announcement reaches the round's machine: processMessage has no other early success return in front of Do(message.Event)", 1)
 	c07NoSilentSkip(c)
 	r.Rule("C07/R7", "a finished batch stays finished: the blob holding all rounds is rewritten under one fixed lock (a save of another round must not restore this round's earlier dump)", 1)
-	c14RMWAs(c, c14Roots(c), "C07/R7", "getStateKey()")
+	c14RMWAs(c, c14Roots(c), "C07/R7", "SaveFSM")
 	ms := c.Machines("C07/A1")
 	fn := c.Fn("C07/R1", pkgNode, "BaseNodeService", "processMessage")
 	if fn == nil || len(ms) != 3 {
@@ -419,6 +419,37 @@ func c07NoSilentSkip(c *Ctx) {
 			continue
 		}
 		if sfx, ok := ssax.ConstString(call.Common().Args[1]); ok && (sfx == "_error" || sfx == "_timeout") {
+			if e, ok := cd.BoolEdge(true); ok {
+				annEdges = append(annEdges, e)
+			}
+		}
+	}
+	// the pre-handlers may live in a helper that reports "this round is dead" as a boolean: a test of a merged boolean
+	// whose `true` alternatives all arise behind the edges collected so far is such a report
+	for _, cd := range ssax.Conds(fn) {
+		if cd.Op != token.ILLEGAL {
+			continue
+		}
+		ph, isPhi := cd.X.(*ssa.Phi)
+		if !isPhi {
+			continue
+		}
+		allConst, nTrue, fromDead := true, 0, true
+		for i, e := range ph.Edges {
+			k, isC := e.(*ssa.Const)
+			if !isC || k.Value == nil {
+				allConst = false
+				break
+			}
+			if k.Value.String() == "true" && i < len(ph.Block().Preds) {
+				nTrue++
+				pb := ph.Block().Preds[i]
+				if len(pb.Instrs) > 0 && ssax.ReachableAvoiding(fn, pb.Instrs[len(pb.Instrs)-1], annEdges, nil) {
+					fromDead = false
+				}
+			}
+		}
+		if allConst && nTrue > 0 && fromDead {
 			if e, ok := cd.BoolEdge(true); ok {
 				annEdges = append(annEdges, e)
 			}
